@@ -7,7 +7,7 @@
              simulator side: the regenerated Reg_clock
    match_comb / match_flat   per-design decidable checks (vm_compute) that imply the hypotheses of the composition theorems.
    NO PROOFS in this file. *)
-From V Require Import Base.PyInt Gen.WireOps Gen.Helpers Gen.Prims Gen.Seq Model.VSyntax Model.VSem Model.Inline Model.SimKernel.
+From V Require Import Base.PyInt Base.Bits Gen.WireOps Gen.Helpers Gen.Prims Gen.Seq Model.VSyntax Model.VSem Model.Inline Model.SimKernel.
 Local Open Scope Z_scope.
 
 Inductive prim :=
@@ -181,7 +181,7 @@ Definition match_flat_comb (ps : list prim) (f : flat) : bool :=
 (* sequential designs.  clk: the flat net of the single clock; ins: the flat nets that may be poked (top-level inputs).
    - the text's assigns are those of ps plus one `q = rq` per register; its processes are exactly the registers' bodies, all on clk
    - rq nets are private (no primitive or register port touches them); q nets are driven by nothing else; poked nets are undriven
-   - power-up: rq = reset_value, every other net 0 *)
+   - power-up: rq = reset_value, every other net 0; every net has a positive width *)
 Definition reg_nids (g : reginst) : list nid := rg_rq g :: rg_q g :: reg_ins g.
 Definition proc_eqb (clk : nat) (p : ptrig * rstmt) (g : reginst) : bool :=
   match fst p with TPos c => Nat.eqb c clk && rstmt_eqb (snd p) (reg_proc g) | _ => false end.
@@ -189,6 +189,7 @@ Definition proc_eqb (clk : nat) (p : ptrig * rstmt) (g : reginst) : bool :=
 Definition procs_match (clk : nat) (procs : list (ptrig * rstmt)) (gs : list reginst) : bool :=
   forallb (fun p => existsb (proc_eqb clk p) gs) procs && forallb (fun g => existsb (fun p => proc_eqb clk p g) procs) gs.
 Definition init_ok (f : flat) (gs : list reginst) : bool :=
+  forallb (fun n => 0 <? fn_width n) (f_nets f) &&
   forallb (fun g => match nth_error (f_nets f) (fst (rg_rq g)) with Some x => fn_init x =? rg_rv g | None => false end) gs &&
   forallb (fun p => mem_nat (fst p) (map (fun g => fst (rg_rq g)) gs) || (fn_init (snd p) =? 0))
           (combine (seq 0 (length (f_nets f))) (f_nets f)).
@@ -211,3 +212,24 @@ Definition match_flat (ps : list prim) (gs : list reginst) (clk : nat) (ins : li
 Definition env_ok (f : flat) (env : list Z) : Prop :=
   length env = length (f_nets f) /\
   forall i n, nth_error (f_nets f) i = Some n -> 0 <= getv env i < 2 ^ fn_width n.
+
+(* ---------------------------------------------------------------- stimuli: VSem.vrun takes port names, Trace.run_states wire ids *)
+Definition net_of (f : flat) (x : string) : nat :=
+  match net_index (f_nets f) x 0 with Some i => i | None => length (f_nets f) end.
+Definition kstep (f : flat) (st : list (string * Z) * nat) : list (nat * Z) * nat :=
+  (map (fun p => (net_of f (fst p), snd p)) (fst st), snd st).
+(* only the listed nets (top-level inputs) are poked *)
+Definition legal_steps (f : flat) (ins : list nat) (steps : list (list (string * Z) * nat)) : Prop :=
+  forall st, In st steps -> forall p, In p (fst st) -> In (net_of f (fst p)) ins.
+
+(* ---------------------------------------------------------------- the simulation relation of the sequential theorems *)
+(* every kernel wire holds the value of its net (the rq nets are private to the text), every q shows its rq *)
+Definition wires_rel (f : flat) (gs : list reginst) (env vals : list Z) : Prop :=
+  env_ok f env /\ length vals = length env /\
+  (forall w, ~ In w (map (fun g => fst (rg_rq g)) gs) -> nth w vals 0 = getv env w) /\
+  (forall g, In g gs -> getv env (fst (rg_rq g)) = getv env (fst (rg_q g))).
+(* ... nothing is pending, and every rq shows the register's stored value truncated to the width of q *)
+Definition sim_rel (f : flat) (gs : list reginst) (env : list Z) (s : state Reg_state) : Prop :=
+  wires_rel f gs env (vals s) /\ pend s = [] /\ length (sts s) = length gs /\
+  (forall j g st, nth_error gs j = Some g -> nth_error (sts s) j = Some st ->
+                  getv env (fst (rg_rq g)) = trunc (snd (rg_q g)) (Reg_s_value st)).
